@@ -86,6 +86,15 @@ THEOREMS_C06_PROFILE = [
      'machine-checked: [2,4] hourly (volume 6) becomes [2,2,3,4] on a half-hourly grid (volume 11/2)'),
     (M, 'EAO.C06P.profile_on_grid_identity',
      'mkProf without conversion: the profiles on the grid are the given bounds times step/unit'),
+    (M, 'EAO.C06P.convert_ramp_monotone',
+     '_convert_ramp is monotone in the profile (identity, interpolation and averaging branch, any ratio): entry-wise smaller in, entry-wise smaller out, same lengths'),
+    (M, 'EAO.C06P.profiles_ordered_on_grid',
+     'whatever resolveCHPP returns: start and shutdown profiles on the grid have lower <= upper entry by entry and equal lengths'),
+    # (d) ramp rows with any number of flags
+    (M, 'EAO.C06P.ramp_rows_general',
+     'ramp rows of a step t >= 1 for every feasible point: v_t <= v_{t-1} + ramp on_t + (max_t - ramp) (number of start flags in the window), v_t >= v_{t-1} - ramp on_{t-1} - (max_{t-1} - ramp) (number of shutdown flags in the window)'),
+    (M, 'EAO.C06P.ramp_first_lower_general',
+     'first-step lower ramp row: v_0 >= (last or last - ramp) - (last - ramp) (sum of the shutdown flags of the first Q steps) (observation P-3)'),
 ]
 
 
